@@ -354,7 +354,7 @@ func runFraming(h *H, cuts bool) {
 	if !cuts {
 		h.Rule("client byte streams built from structured commands (LOGIN, SELECT/EXAMINE, CREATE, DELETE, RENAME, SUBSCRIBE, UNSUBSCRIBE, APPEND with flags/date, ENABLE, IDLE, CLOSE/UNSELECT/EXPUNGE, NOOP, CAPABILITY, LOGOUT, unknown) whose string arguments are rendered as atom / quoted / synchronising literal / non-synchronising literal with announced sizes 0, 1, 4096, 4097, 5000 and APPEND limit+1, payloads containing CRLF and command-like text (with their own tags), with and without the payload of a refused synchronising literal (honest vs pipelining client), syntax errors before a literal announcement, servers with and without LITERAL+, greeting OK and PREAUTH; plus byte-level mutations. The whole stream is written at once, the connection half-closed and all output read. Oracle on the structured streams: every tagged response carries the tag of a real command, in order, at most once; no backend call that the structured description does not contain (i.e. none originating from payload text); '+' only for accepted synchronising literals and IDLE; every output line well-formed. Model: token sequence and backend calls with arguments re-evaluated inside Coq. Non-trivial = the stream contains a literal; distinct by stream.")
 	} else {
-		h.Rule("every prefix (cut at every byte offset, clean half-close and TCP reset) of a corpus of multi-command transcripts incl. literals, IDLE and APPEND, plus fuzzed streams (grammar-generated, mutated, raw garbage): the server log must contain no panic, the session must be closed exactly once, no string argument longer than 4096 bytes may reach a handler other than APPEND's streamed payload, an APPEND above the limit must be refused without its payload being awaited, goroutines must return to the baseline, and the backend calls must equal the model's on the same truncated stream. Non-trivial = the cut falls inside a command (not on a line boundary) or the stream contains a literal; distinct by stream.")
+		h.Rule("every prefix (cut at every byte offset, clean half-close and TCP reset) of a corpus of multi-command transcripts incl. literals, IDLE and APPEND, AUTHENTICATE exchanges with every kind of answer to the continuation request, SEARCH keys nested beyond the cap (plain and with empty lists), plus fuzzed streams (grammar-generated, mutated, raw garbage): the server log must contain no panic, the session must be closed exactly once, no string argument longer than 4096 bytes may reach a handler other than APPEND's streamed payload, an APPEND above the limit must be refused without its payload being awaited, goroutines must return to the baseline, and the backend calls must equal the model's on the same truncated stream. Non-trivial = the cut falls inside a command (not on a line boundary) or the stream contains a literal; distinct by stream.")
 	}
 
 	servers := map[string]*testServer{}
@@ -585,9 +585,10 @@ func runFraming(h *H, cuts bool) {
 		}
 		h.Eval(key)
 		h.Hist("src:" + src)
-		if reset {
+		if reset || strings.HasPrefix(src, "oracle-only") {
 			// after a TCP reset the server may never see data it had not read yet: only the
-			// cleanup oracles above apply, the calls are not comparable
+			// cleanup oracles above apply, the calls are not comparable; "oracle-only" streams
+			// use commands outside the byte-level model (AUTHENTICATE, SEARCH)
 			return
 		}
 		corr.Add(fmt.Sprintf("(true, %s, [%s], [%s], %d, %s, %s, %s)", coqBool(litPlus), coqHxS(validDate), coqHxS("failbox"), st0, coqHx(stream), tokTerm, coqList(calls)), desc)
@@ -728,7 +729,14 @@ func runFraming(h *H, cuts bool) {
 				}
 				one([]byte(sb.String()), cmdsT, litPlus, false, -1, false, "corpus-plus-in-tag")
 			}
-			// APPEND above the limit: announced only
+			// APPEND above the limit: announced only (sizes around the limit and around 2^31, 2^32, 2^63)
+			for _, big := range []int{104857601, 104857602, 2147483647, 2147483648, 4294967295, 4294967296, 4294967301, 8589934592, 9223372036854775807} {
+				cmds := []fCmd{
+					{Tag: newTag(), Name: "APPEND", Args: []fArg{{Val: "box", Form: formAtom}, {Val: "", Form: formSync, Announce: big, Omit: true}}},
+					{Tag: newTag(), Name: "NOOP"},
+				}
+				one([]byte(cmds[0].render()+cmds[1].render()), cmds, litPlus, true, -1, false, "corpus-append-limit")
+			}
 			for _, form := range []argForm{formSync, formNonSync} {
 				cmds := []fCmd{
 					{Tag: newTag(), Name: "APPEND", Args: []fArg{{Val: "box", Form: formAtom}, {Val: "", Form: form, Announce: 104857601, Omit: true}}},
@@ -880,6 +888,40 @@ func runFraming(h *H, cuts bool) {
 		for _, tmpl := range []string{"L1 LOGIN {%d+}\r\n%s pw\r\nL2 NOOP\r\n", "L1 LOGIN u p\r\nL2 CREATE {%d+}\r\n%s\r\nL3 NOOP\r\n", "L1 LOGIN u p\r\nL2 SELECT {%d+}\r\n%s\r\n"} {
 			stream := []byte(fmt.Sprintf(tmpl, n, strings.Repeat("k", n)))
 			one(stream, nil, true, false, len(stream), false, "litplus-oversize")
+		}
+	}
+
+	// AUTHENTICATE exchanges (outside the byte-level model: cleanup and no-panic oracles only),
+	// every way of answering the continuation request, cut at every byte offset
+	for _, resp := range []string{"AHVzZXIAcGFzcw==\r\n", "\r\n", "*\r\n", "=\r\n", " \r\n", "!!!\r\n", "AHVzZXIAcGFzcw=\r\n", "\n", strings.Repeat("QUJD", 2000) + "\r\n"} {
+		tr := "N1 AUTHENTICATE PLAIN\r\n" + resp + "N2 NOOP\r\nN3 AUTHENTICATE PLAIN AHVzZXIAcGFzcw==\r\nN4 AUTHENTICATE XOAUTH2\r\n" + resp + "N5 LOGOUT\r\n"
+		for cut := 0; cut <= len(tr); cut++ {
+			if cut > 1 && cut < len(tr) && tr[cut-1] == tr[cut] && tr[cut-2] == tr[cut] && cut%257 != 0 {
+				continue
+			}
+			one([]byte(tr[:cut]), nil, false, false, cut, false, "oracle-only-authenticate")
+		}
+	}
+	// nesting bombs in a SEARCH command, plain and with an empty list at every level: never OK
+	for _, depth := range []int{1001, 1500, 20000} {
+		for _, open := range []string{"(", "(()"} {
+			stream := "S1 LOGIN u p\r\nS2 SELECT INBOX\r\nS3 SEARCH " + strings.Repeat(open, depth) + "ALL" + strings.Repeat(")", depth) + "\r\nS4 NOOP\r\n"
+			ts := getServer(false, false)
+			res, _ := runStream(ts, rawSegs([]byte(stream)), false)
+			desc := map[string]interface{}{"stream": fmt.Sprintf("S3 SEARCH %q x %d ALL ...", open, depth)}
+			for _, t := range res.Toks {
+				if t.Kind == 0 && t.Tag == "S3" && t.Cls == 0 {
+					h.Fail("nesting-unbounded", fmt.Sprintf("a SEARCH key nested %d levels deep (each level opened by %q) was accepted", depth, open), desc)
+				}
+			}
+			if strings.Contains(ts.log.String(), "panic") {
+				h.Fail("server-panic", "server log reports a panic: "+firstLine(ts.log.String()), desc)
+			}
+			if res.Closes != 1 {
+				h.Fail(fmt.Sprintf("session-close-count:%d", res.Closes), fmt.Sprintf("Session.Close was called %d times", res.Closes), desc)
+			}
+			h.Eval(fmt.Sprintf("search-nesting|%s|%d", open, depth))
+			h.Hist("src:search-nesting")
 		}
 	}
 
